@@ -129,12 +129,11 @@ func cmdCheck(args []string) {
 	for _, h := range ps.Harnesses {
 		rootSet[fullPkg(h.Pkg)] = true
 	}
-	var roots []string
+	var hpk []string
 	for r := range rootSet {
-		roots = append(roots, r)
+		hpk = append(hpk, r)
 	}
-	sort.Strings(roots)
-	L, err := loadProgram(repoDir(), ov, roots)
+	L, err := loadProgram(repoDir(), ov, rootsFor(hpk))
 	if err != nil {
 		fmt.Printf("INCONCLUSIVE property=%s load failed: %v\n", id, err)
 		os.Exit(2)
